@@ -170,10 +170,8 @@ where
     }
 
     pub fn remove_all(&mut self, x: A) {
-        if x.as_usize() >= self.data.len() {
-            if let Some(values) = self.data.get_mut(x.as_usize()) {
-                values.clear();
-            }
+        if let Some(values) = self.data.get_mut(x.as_usize()) {
+            values.clear();
         }
     }
 
